@@ -17,6 +17,7 @@ import (
 	"fmt"
 	"io"
 	"math/big"
+	"strings"
 	"testing"
 )
 
@@ -452,6 +453,22 @@ func TestB2C10Independent(t *testing.T) {
 					t.Errorf("B2-FAIL iso-stream %s ref=%v: %v", desc, s.ref, err)
 					continue
 				}
+				// the strings of the stream dictionary are encrypted under the stream's own key
+				{
+					var wantStrings, gotStrings []String
+					c09Strings(s.dict, func(x String) { wantStrings = append(wantStrings, x) })
+					c09Strings(stm.Dict, func(x String) { gotStrings = append(gotStrings, x) })
+					if len(wantStrings) != len(gotStrings) {
+						t.Errorf("B2-FAIL iso-shape %s stream dictionary ref=%v", desc, s.ref)
+					} else {
+						for i, ct := range gotStrings {
+							pt, err := e.decrypt(key, s.ref, ct)
+							if err != nil || !bytes.Equal(pt, wantStrings[i]) {
+								t.Errorf("B2-FAIL iso-string %s stream dictionary ref=%v want=%q got=%q err=%v", desc, s.ref, wantStrings[i], pt, err)
+							}
+						}
+					}
+				}
 				if len(body) == 0 && len(s.data) == 0 {
 					continue
 				}
@@ -468,6 +485,39 @@ func TestB2C10Independent(t *testing.T) {
 					t.Errorf("B2-FAIL iso-stream-data %s ref=%v len(want)=%d len(got)=%d err=%v", desc, s.ref, len(s.data), len(pt), err)
 				}
 			}
+		}
+	}
+	t.Logf("B2-CASES %d", cases)
+}
+
+// TestB2C09LongPasswords: revision 6 passwords are cut at 127 bytes, also in the middle of a
+// character; two passwords that differ only in that last byte are different passwords.
+func TestB2C09LongPasswords(t *testing.T) {
+	cases := 0
+	prefix := strings.Repeat("a", 126)
+	for _, pair := range [][2]string{{prefix + "\u00e9tail", prefix + "\u0451tail"}, {prefix + "\u00e9", prefix}, {prefix + "xy", prefix + "xz"}, {prefix + "x", prefix + "y"}} {
+		cases++
+		var buf bytes.Buffer
+		w, err := NewWriter(&buf, V2_0, &WriterOptions{UserPassword: pair[0], OwnerPassword: "owner"})
+		if err != nil {
+			t.Errorf("B2-FAIL long-password setup: %v", err)
+			continue
+		}
+		a := w.Alloc()
+		w.GetMeta().Catalog.Pages = a
+		w.Put(a, Dict{"Type": Name("Pages"), "Kids": Array{}, "Count": Integer(0)})
+		w.Close()
+		data := buf.Bytes()
+		if _, err := NewReader(bytes.NewReader(data), int64(len(data)), &ReaderOptions{Password: pair[0]}); err != nil {
+			t.Errorf("B2-FAIL long-password own password rejected (%d bytes): %v", len(pair[0]), err)
+		}
+		same := len(pair[0]) >= 127 && len(pair[1]) >= 127 && pair[0][:127] == pair[1][:127]
+		_, err = NewReader(bytes.NewReader(data), int64(len(data)), &ReaderOptions{Password: pair[1]})
+		if same && err != nil {
+			t.Errorf("B2-FAIL long-password passwords equal in their first 127 bytes must both open the file: %v", err)
+		}
+		if !same && err == nil {
+			t.Errorf("B2-FAIL long-password a password that differs within the first 127 bytes (lengths %d, %d) opens the file", len(pair[0]), len(pair[1]))
 		}
 	}
 	t.Logf("B2-CASES %d", cases)
@@ -497,6 +547,14 @@ func TestB2C09Passwords(t *testing.T) {
 				w.Put(pages, Dict{"Type": Name("Pages"), "Kids": Array{}, "Count": Integer(0)})
 				secret := w.Alloc()
 				w.Put(secret, Dict{"S": String("the secret string"), "A": Array{String("another one")}})
+				// the same String value written three times
+				shared := String("a value that is written more than once")
+				sh1, sh2 := w.Alloc(), w.Alloc()
+				w.Put(sh1, shared)
+				w.Put(sh2, Array{shared, shared})
+				if string(shared) != "a value that is written more than once" {
+					t.Errorf("B2-FAIL caller-value-modified v=%v: %q", v, shared)
+				}
 				sref := w.Alloc()
 				sw, _ := w.OpenStream(sref, Dict{"Note": String("in the stream dict")}, FilterCompress{})
 				// an object put while the stream is open (written after it)
@@ -517,6 +575,13 @@ func TestB2C09Passwords(t *testing.T) {
 					obj, err := r.Get(secret, true)
 					if err != nil || !Equal(obj, Dict{"S": String("the secret string"), "A": Array{String("another one")}}) {
 						return fmt.Errorf("strings: %v %v", obj, err)
+					}
+					want := String("a value that is written more than once")
+					if o1, err := r.Get(sh1, true); err != nil || !Equal(o1, want) {
+						return fmt.Errorf("shared string, first copy: %v %v", o1, err)
+					}
+					if o2, err := r.Get(sh2, true); err != nil || !Equal(o2, Array{want, want}) {
+						return fmt.Errorf("shared string, later copies: %v %v", o2, err)
 					}
 					if obj, err := r.Get(during, true); err != nil || !Equal(obj, Array{String("put while the stream is open")}) {
 						return fmt.Errorf("object put during the stream: %v %v", obj, err)
@@ -590,6 +655,79 @@ func TestB2C09Passwords(t *testing.T) {
 						}
 					}
 				}
+			}
+		}
+	}
+	t.Logf("B2-CASES %d", cases)
+}
+
+// TestB2C10Hash compares the library's revision 6 password hash (Algorithm 2.B) with the
+// independent implementation on 1500 deterministic inputs: the number of rounds depends on
+// the data, so single files exercise only a few of the termination cases.
+func TestB2C10Hash(t *testing.T) {
+	cases := 0
+	x := uint32(2463534242)
+	next := func() byte {
+		x ^= x << 13
+		x ^= x >> 17
+		x ^= x << 5
+		return byte(x >> 7)
+	}
+	for i := 0; i < 1500; i++ {
+		cases++
+		pwd := make([]byte, i%41)
+		for k := range pwd {
+			pwd[k] = next()
+		}
+		salt := make([]byte, 8)
+		for k := range salt {
+			salt[k] = next()
+		}
+		var u []byte
+		if i%2 == 1 {
+			u = make([]byte, 48)
+			for k := range u {
+				u[k] = next()
+			}
+		}
+		if got, want := slowHash(pwd, salt, u), isoHash2B(pwd, salt, u); !bytes.Equal(got, want) {
+			t.Errorf("B2-FAIL hash-2B input #%d (password %d bytes, user key %d bytes): %x, independent implementation %x", i, len(pwd), len(u), got, want)
+			if i > 200 {
+				break
+			}
+		}
+	}
+	t.Logf("B2-CASES %d", cases)
+}
+
+// TestB2C10ForeignPadding: for revisions 3 and 4 only the first 16 bytes of /U are
+// significant, the rest is arbitrary padding (Algorithm 5 step f): handlers whose /U carries
+// non-zero padding, as other producers write it, must authenticate both passwords.
+func TestB2C10ForeignPadding(t *testing.T) {
+	cases := 0
+	id := []byte("0123456789abcdef")
+	for _, cfg := range []struct{ length, V int }{{128, 2}, {128, 4}, {40, 1}} {
+		for pad := 0; pad < 4; pad++ {
+			cases++
+			sec, err := createStdSecHandler(id, "user", "owner", PermAll, cfg.length, cfg.V, false)
+			if err != nil {
+				t.Errorf("B2-FAIL foreign-padding setup V=%d: %v", cfg.V, err)
+				continue
+			}
+			if sec.R >= 3 {
+				for k := 16; k < 32; k++ {
+					sec.U[k] = byte(pad * (k + 7))
+				}
+			}
+			for _, pwd := range []string{"user", "owner"} {
+				sec.key = nil
+				if _, err := sec.authenticate(pwd); err != nil {
+					t.Errorf("B2-FAIL foreign-padding V=%d R=%d padding #%d password %q: %v", cfg.V, sec.R, pad, pwd, err)
+				}
+			}
+			sec.key = nil
+			if _, err := sec.authenticate("wrong"); err == nil {
+				t.Errorf("B2-FAIL foreign-padding V=%d R=%d: wrong password accepted", cfg.V, sec.R)
 			}
 		}
 	}
